@@ -13,7 +13,7 @@ LEVEL_TEXT = ("AuthFlow.tla models the calls protocol handlers make into the pat
               "against a real core.Core whose path manager's authManager is wrapped by a recorder; TLC evaluates the statement on "
               "the recorded Authenticate calls, reloads and the attachment read from the path manager's API; 'admitted' is C01's "
               "statement formula over the configured users")
-LEVEL_NOTE = ("routes: direct path-manager calls (FindPathConf, AddPublisher with ConfToCompare), real clients for RTSP, RTMP, SRT, MoQ over native QUIC (publish and read), WebRTC WHIP/WHEP (every credential placement at HTTP level; real sessions with the repository's WHIP client over loopback ICE: 9 in quick, the whole space in thorough), HLS (read); HLS and WebRTC both behind the trusted proxy 127.0.0.1 (client IP = forwarded address) and, on a second Core, with an empty trusted-proxy list (client IP = TCP peer, forged X-Forwarded-For / X-Real-IP); "
+LEVEL_NOTE = ("routes: direct path-manager calls (FindPathConf, AddPublisher with ConfToCompare), real clients for RTSP, RTMP, SRT, MoQ over native QUIC (publish and read), WebRTC WHIP/WHEP (every credential placement at HTTP level; real sessions with the repository's WHIP client over loopback ICE: 9 in quick, the whole space in thorough), HLS (read through a session; media requested directly while the path's CDN session exists); HLS and WebRTC both behind the trusted proxy 127.0.0.1 (client IP = forwarded address) and, on a second Core, with an empty trusted-proxy list (client IP = TCP peer, forged X-Forwarded-For / X-Real-IP); "
               "MoQ over WebTransport, RTSPS and RTMPS are not bound; reload between authorization and attachment (none / another entry / non-hot field / only a hot-reloadable "
               "field of the same entry / name re-homed to a new exact entry; effect measured at the path manager) is "
               "client-driven (RTSP: ANNOUNCE..RECORD, RTMP / SRT: accepted publish request..first tracks); one fresh path name per scenario")
